@@ -339,7 +339,7 @@ fn trunc<T: std::fmt::Debug>(t: &T) -> String {
 }
 
 pub fn paging(ctx: &Ctx) -> Report {
-    let n = ctx.n(2_500, 400_000);
+    let n = ctx.n(50_000, 50_000_000);
     par_cases(ctx, "paging", n, ctx.secs(30, 600), |i, rng, rep| run_case(i, rng, rep, false))
 }
 
